@@ -4,6 +4,7 @@
 #   demonstration fails with / passes without the change, the repository's whole test suite still passes with it,
 #   and what the property's check says about it.  Stores /verif/seeded/<PROP>_<x>/ and removes the worktree.
 P=$1; X=$2; NP=${3:-4}
+export OMP_NUM_THREADS=1 OPENBLAS_NUM_THREADS=1 MKL_NUM_THREADS=1 NUMEXPR_NUM_THREADS=1 TF_NUM_INTRAOP_THREADS=1 TF_NUM_INTEROP_THREADS=1
 SRC=/tmp/seed/$P.out
 ID=${P}_$X
 DST=/verif/seeded/$ID
